@@ -33,6 +33,10 @@ type Proc struct {
 	Offset  int64
 	RateNum int64
 	RateDen int64
+	// Last local reading and the offset it was taken with: with a rate below 1 two global
+	// instants 1 ns apart would map to one local nanosecond; readings of one process stay
+	// strictly increasing unless its clock was stepped (Offset changed) in between.
+	LastLocal, LastOffset int64
 
 	// StallUntil: tasks of this process are not scheduled before this virtual time.
 	StallUntil int64
